@@ -114,6 +114,23 @@ check("C16", level="model_checking", engine="ix",
       note="Trusted base: src/ix/shell.cc, src/ix/printargs.c, /bin/sh (dash) as reference; for (b) the engine-A base. "
            "Names with NUL/newline excluded as the property states; longer names are not enumerated.", design_ref="5/C16")
 
+check("C13", level="model_checking", engine="ix",
+      technique="bounded-exhaustive token-string enumeration per input format on the real parsers/loaders under ASan+UBSan, forked workers with watchdog",
+      text="For each of 11 input formats (manifest, depfile, dyndep, .ninja_log, .ninja_deps behind a valid header, "
+           "/showIncludes text, MAKEFLAGS, NINJA_STATUS, --status, ElideMiddle, CanonicalizePath) every token string up to "
+           "the stated length is processed by the real code in a sanitizer build; plus a list of structural stress cases "
+           "(self-including manifests, deep nesting, variable cycles, oversized records/lines). Any sanitizer report, abort, "
+           "stack overflow or watchdog timeout is a violation.",
+      note="Trusted base: src/ix/fuzzall.cc (drivers, token alphabets), the sanitizers. Complete only within the token "
+           "alphabets and lengths reported in the evidence; long random inputs are outside this family.", design_ref="5/C13")
+check("C15", level="model_checking", engine="ix",
+      technique="bounded-exhaustive name x layout enumeration, reference encoder (GCC/Clang quoting) vs the real DepfileParser",
+      text="Every representable name up to length 4 (quick) / 5 (thorough) over a 9-symbol alphabet of special characters, in "
+           "4 placements and every ordered pair of names up to length 3, each in 7 layouts, with and without escaped colons; "
+           "the real parser must return exactly the encoded names, each dependency once, targets and dependencies apart; "
+           "depfiles without ':' and dependencies re-used as targets with dependencies must be rejected.",
+      note="Trusted base: reference encoder and representability predicate in src/ix/depfile.cc.", design_ref="5/C15")
+
 ALL = ["C%02d" % i for i in range(1, 21)]
 
 
